@@ -65,6 +65,12 @@ claim("C09", "other",
       "Trusted: abstract interpreter over Type/Operation variant tags (unknown calls are TOP), value-flow engine, the recognition of table-level validation loops, MIR construction.",
       "guard analysis by variant-conditioned abstract interpretation of MIR + provenance rules (custom rustc_private lint)")
 
+claim("C10", "other",
+      "Decides only the clause the property singles out ('structural operations convert elements through 64-bit integers'): every <=64-bit reader of element data reachable from SimpleEvaluator::evaluate_node is applied to a scalar type that is provably <= 64 bit (constant, constructor over a constant, or an operand fixed by type inference - tabled with the place that fixes it), per Operation variant. Numerical results of the operations are NOT decided.",
+      "DESIGN.md section 3, C10",
+      "Trusted: the tables of operands/sites constrained by type inference (13 + 2 entries, each with its reason), value-flow engine, abstract interpreter for variant reachability.",
+      "type-provenance rule over MIR value-flow, per Operation variant (custom rustc_private lint)")
+
 ALL = ["C%02d" % i for i in range(1, 21)]
 
 def main():
